@@ -4,7 +4,7 @@ input, never panics, allocates at most `A` per consumed byte when it succeeds (a
 takes at most `K` steps per consumed byte plus `S`, and consumes at least `w` bytes when it succeeds — with one lemma
 per primitive and combinator, then the mutual induction over type descriptors. Potentials (`alloc + A·|rest|`) keep
 every obligation linear for `omega`. -/
-namespace Tongo.Tl
+namespace Tongo.TlD
 
 theorem pot_stepn {A A' r r' x y d n : Nat} (h1 : x + A' * r' ≤ y + A' * r) (hr : r' + n ≤ r) (hA : A' + d ≤ A) :
     x + d * n + A * r' ≤ y + A * r := by
@@ -582,4 +582,4 @@ theorem zero_width_steps (b0 b1 b2 b3 : UInt8) :
   simp only [List.take]
   omega
 
-end Tongo.Tl
+end Tongo.TlD
